@@ -676,13 +676,11 @@ class ClickHouseGenerator(generator.Generator):
 
         return is_sql
 
-    def in_sql(self, expression: exp.In) -> str:
-        in_sql = super().in_sql(expression)
-
+    def in_op(self, expression: exp.In) -> str:
         if isinstance(expression.parent, exp.Not) and expression.args.get("is_global"):
-            in_sql = in_sql.replace("GLOBAL IN", "GLOBAL NOT IN", 1)
+            return "GLOBAL NOT IN"
 
-        return in_sql
+        return super().in_op(expression)
 
     def not_sql(self, expression: exp.Not) -> str:
         if isinstance(expression.this, exp.In):
